@@ -1490,6 +1490,7 @@ def r_serialsample(ctx) -> RuleResult:
         ("decane skeleton with a triplet carbene at one end: indices above nine", mol({i: ("C", None, 3 if i == 9 else None, min(i, 9 - i)) for i in range(10)}, [(i, i + 1) for i in range(9)], order=[9, 3, 0, 7, 1, 8, 2, 6, 4, 5])),
         ("an eleven-carbon chain labelled at its second, tenth and eleventh atom: attribute blocks with one- and two-digit indices",
          mol({i: ("C", 14 if i == 1 else (13 if i == 9 else None), 2 if i == 10 else None, i) for i in range(11)}, [(i, i + 1) for i in range(10)], order=[5, 10, 0, 9, 1, 8, 2, 7, 3, 6, 4])),
+        ("three helium atoms: more components than classes", mol({0: ("He", None, None, 0), 1: ("He", None, None, 0), 2: ("He", None, None, 0)}, [], order=[1, 2, 0])),
         ("water and hydrogen peroxide side by side: two components", mol({0: ("O", None, None, 0), 1: ("H", None, None, 1), 2: ("H", None, None, 1), 3: ("O", None, None, 2), 4: ("O", None, None, 2), 5: ("H", 3, None, 3), 6: ("H", None, None, 4)},
                                                                            [(0, 1), (0, 2), (3, 4), (3, 5), (4, 6)], order=[6, 5, 4, 3, 2, 1, 0])),
     ]
